@@ -252,7 +252,7 @@ def run_case(rng, idx, tier, lane, ctx):
         try:
             if not cython and spec["params"] and rng.random() < 0.3:
                 counters["rejected_mutations"] = counters.get("rejected_mutations", 0) + G.rejected_mutations(m, spec, rng)
-            ref = compare_model(m, spec, rng, counters, bad, n_points=3)
+            ref = compare_model(m, spec, rng, counters, bad, n_points=4)
             # the same definition declared in another order lives in the same process: each object must evaluate ITS OWN equations
             tw = G.permuted_twin_spec(spec, rng) if (not cython and not wit and rng.random() < 0.3) else None
             if tw is not None:
